@@ -2,4 +2,5 @@ pub mod cfg;
 pub mod progen;
 pub mod syngen;
 pub mod datagen;
+pub mod fsgen;
 pub mod c17gen;
